@@ -143,6 +143,29 @@ func longSymbolLists() [][]int {
 		}
 		out = append(out, a, b)
 	}
+	// every length from 4 to 40 over three symbols (a helper may switch strategy at a length)
+	for n := 4; n <= 40; n++ {
+		l := make([]int, n)
+		for i := range l {
+			l[i] = (i*i + i/3) % 3
+		}
+		out = append(out, l)
+	}
+	// many DISTINCT values (a helper may switch strategy with the number of distinct values it has seen, not
+	// with the length): k distinct symbols followed by all of them again, by the last one again, reversed
+	for _, k := range []int{8, 9, 10, 16, 17, 33} {
+		var asc, twice, lastAgain, mirror []int
+		for i := 0; i < k; i++ {
+			asc = append(asc, i)
+		}
+		twice = append(append(twice, asc...), asc...)
+		lastAgain = append(append(lastAgain, asc...), k-1, 0, k-1)
+		mirror = append(mirror, asc...)
+		for i := k - 1; i >= 0; i-- {
+			mirror = append(mirror, i)
+		}
+		out = append(out, asc, twice, lastAgain, mirror)
+	}
 	return out
 }
 
@@ -167,6 +190,13 @@ func (s *suite[T]) run() {
 	symOf := map[T]int{}
 	for i := 0; i < 3; i++ {
 		symOf[s.sym(i)] = i
+	}
+	for _, l := range lists {
+		for _, x := range l {
+			if x >= 3 {
+				symOf[s.sym(x)] = x
+			}
+		}
 	}
 	for _, it := range ins {
 		*s.inputs++
